@@ -15,6 +15,11 @@
   `compress_V` (truncated column sums!) is proved to compute the abstract compress step on banded `Q`
   (`c07_model_compress_V`), and one regular pass of its `factorize_from` loop is proved to preserve the relation
   (`c07_model_step_spec`, `c07_model_extend`, `c07_model_factorStep`).
+  MODEL-LEVEL INDUCTION (added with the C01 discharge; section "the executable Lanczos model at an exact field" at the end):
+  `c07_model_lanczos_step` (one regular pass of `Lanczos.factorStep` IS the C07 `extend` step, `ok`/`exact`/`orthOk`),
+  `c07_model_factorize_run` (the whole `Lanczos.factorize_from` loop is a step list ending at `k = to_m`), `c07_model_compress`
+  (`compress_H`+`compress_V` with the accumulated `Q` is the compress step), `c07_model_restart_run` (`HermSolver.restartFac`),
+  `c07_model_init` (`Arnoldi.init`), under the RUN-LEVEL hypothesis "no breakdown" (`C07L.Regular`, `C07L.InitRegular`).
 
   NOT PROVED (out of reach here, checked only by the long-double oracle on the real code):
   * rounding: "to rounding level relative to ‖A‖".  The theorems are about exact arithmetic.
@@ -34,6 +39,10 @@ import SpectraVerif.Proofs.C07Run
 import SpectraVerif.Proofs.C07Refine
 import SpectraVerif.Proofs.C07Step
 import SpectraVerif.Proofs.C07Bridge
+import SpectraVerif.Proofs.C07ModelLanczos
+import SpectraVerif.Proofs.C07ModelRun
+import SpectraVerif.Proofs.C07ModelRestart
+import SpectraVerif.Proofs.C07ModelInit
 
 open Finset Matrix
 
@@ -401,5 +410,104 @@ example (h1 : (1 : 𝕜) ≠ 0) (v : 𝕜) (h : ℕ → 𝕜) :
     subst this; simp
   intro hn
   exact h1 (((c07_breakdown _ _ _ _ 1 (by omega) v h hK).2).mp hn)
+
+/-! ### the executable Lanczos model at an exact field: passes, loops, restart, init as C07 steps
+
+  `C07L.ExactSc K`: the `Sc` instance has exact comparisons / abs / square root (`scOfField F` with an exact `F.sqrt`).
+  `C07L.OpOK n op A`: identity `B`, `perform_op` is the linear map `A`.  `hsa`: `A` is self-adjoint for the Euclidean form (symmetric).
+  `C07L.PassInv n m A s i`: array shapes, `i`-step Krylov relation, `VᵀV = I`, `Vᵀf = 0`, `beta = ‖f‖`, `H` symmetric tridiagonal on the
+  leading block and zero off the three diagonals outside it, `0 ≤ eps`.
+  `C07L.absAt n i s`: the model state read as a `C07.St` of dimension `i` (`V`, the leading block of `H` + the entry `(i,i-1)`, `f`).
+
+  NOT DONE: the RESTART BRANCH of a pass (`beta < near_0` → `Arnoldi.expand_basis`) and the `f := 0` shortcut inside the
+  re-orthogonalisation loop.  In exact arithmetic with an orthonormal basis the shortcut and the second restart criterion are
+  unreachable (proved inside `c07_model_lanczos_step`: `Vᵀf' = 0` exactly, so the loop is not entered); the first criterion is
+  excluded by the hypothesis `hreg` / `C07L.Regular`: what the code does there (random directions, accepted only if
+  `‖Vᵀg‖ < eps‖g‖`, residual discarded) is a C07 `restart` step whose exactness needs `f = 0` and whose orthogonality needs the random
+  direction to leave `span V` — run-dependent facts (abstract algebra: `c07_breakdown`). -/
+section lanczos_model
+open C07L C01E
+variable {K : Type} [Field K] [LinearOrder K] [IsStrictOrderedRing K] [Sc K] (Ex : ExactSc K)
+include Ex
+
+/-- (1) `c07_model_lanczos_step`: ONE REGULAR PASS of `Lanczos.factorStep` on a state satisfying the loop invariant at `i`
+    (`1 ≤ i < m`, `beta ≥ near_0`, `beta ≠ 0`) produces EXACTLY the C07 state `(absAt i s).step (.extend beta h)` — `V`, `H`, `f`, `k`,
+    `R` as functions —; the step is `ok`, `exact` and `orthOk`; the invariant holds at `i + 1`.  (Neither the second restart criterion
+    nor the re-orthogonalisation loop — hence the `f := 0` shortcut — can fire: the three-term recurrence is full Gram–Schmidt.) -/
+theorem c07_model_lanczos_step (n m : ℕ) (A : (Fin n → K) →ₗ[K] (Fin n → K)) (op : Arnoldi.Op K) (hop : OpOK n op A)
+    (hsa : ∀ x y, dotProduct x (A y) = dotProduct (A x) y) (bt es : K) (hes : 0 ≤ es)
+    (s : Arnoldi.State K) (i : ℕ) (hI : PassInv n m A s i) (hi1 : 1 ≤ i) (him : i < m)
+    (hreg : Sc.lt s.beta s.near0 = false) (hβ : s.beta ≠ 0) :
+    ∃ h : ℕ → K,
+      absAt n (i + 1) (Lanczos.factorStep op bt es s i) = (absAt n i s).step A (.extend s.beta h) ∧
+      (Step.extend s.beta h : Step K (Fin n → K)).ok (absAt n i s) ∧
+      (Step.extend s.beta h : Step K (Fin n → K)).exact (absAt n i s) ∧
+      (Step.extend s.beta h : Step K (Fin n → K)).orthOk (dotIP n) A (absAt n i s) ∧
+      PassInv n m A (Lanczos.factorStep op bt es s i) (i + 1) ∧
+      (Lanczos.factorStep op bt es s i).k = s.k ∧ (Lanczos.factorStep op bt es s i).near0 = s.near0 ∧
+      (Lanczos.factorStep op bt es s i).eps = s.eps :=
+  lanczos_pass_regular Ex n m A op hop hsa bt es hes s i hI hi1 him hreg hβ
+
+/-- (2) `c07_model_factorize_run`: INDUCTION OVER THE WHOLE LOOP.  `Lanczos.factorize_from(k, to_m)` from the current dimension
+    `k = s.k ≥ 1` returns a state of advertised dimension `to_m` that is `C07.run` of a list of `to_m − k` steps applied to the state
+    with `H` cleaned outside its leading block (the two `setZero` calls), all steps `ok`, `exact`, `orthOk`; the invariant holds at
+    `to_m`.  Hypothesis `hreg`: no pass of this run meets a breakdown. -/
+theorem c07_model_factorize_run (n m : ℕ) (A : (Fin n → K) →ₗ[K] (Fin n → K)) (op : Arnoldi.Op K) (hop : OpOK n op A)
+    (hsa : ∀ x y, dotProduct x (A y) = dotProduct (A x) y)
+    (s : Arnoldi.State K) (to_m : ℕ) (hI : PassInv n m A s s.k) (hk1 : 1 ≤ s.k) (hlt : s.k < to_m) (hto : to_m ≤ m)
+    (hreg : Regular op (s.eps * Sc.sqrt (Sc.ofInt (s.n : Int))) (Sc.sqrt s.eps) (to_m - s.k) s.k (cleanH s s.k)) :
+    ∃ s' : Arnoldi.State K, Lanczos.factorize_from op s s.k to_m = some s' ∧ s'.k = to_m ∧
+      s'.near0 = s.near0 ∧ s'.eps = s.eps ∧ PassInv n m A s' s'.k ∧
+      ∃ l : List (Step K (Fin n → K)), l.length = to_m - s.k ∧
+        allOk A (absAt n s.k (cleanH s s.k)) l ∧ allExact A (absAt n s.k (cleanH s s.k)) l ∧
+        allOrthOk (dotIP n) A (absAt n s.k (cleanH s s.k)) l ∧
+        absAt n s'.k s' = C07.run A (absAt n s.k (cleanH s s.k)) l :=
+  factorize_run Ex n m A op hop hsa s to_m hI hk1 hlt hto hreg
+
+/-- (3a) `c07_model_compress`: `compress_H` + `compress_V` with an accumulated `(H⁺, Q)` satisfying the QR facts (`H⁺` symmetric
+    tridiagonal, `H Q = Q H⁺`, `QᵀQ = I`, `Q` of lower bandwidth `m − k`: C08) maps the invariant at full dimension `m` to the invariant
+    at `k` — the model-level `c07_compress` + `c07_compress_orth` + `c07_compress_band` in one. -/
+theorem c07_model_compress (n m : ℕ) (A : (Fin n → K) →ₗ[K] (Fin n → K)) (op : Arnoldi.Op K) (hop : OpOK n op A)
+    (s : Arnoldi.State K) (k : ℕ) (hI : PassInv n m A s m) (hk0 : 0 < k) (hkm : k < m) (Hp Q : Lin.Mat K)
+    (hq : QRFacts m k s.H Hp Q) :
+    PassInv n m A (Arnoldi.compress_V op { s with H := Hp, k := k } Q) k :=
+  compress_passInv Ex n m A op hop s k hI hk0 hkm Hp Q hq
+
+/-- (3b) `c07_model_restart_run`: the whole `HermSolver.restartFac(k)` from a full factorization: never throws, the state after
+    `compress_V` (`restartMid`) satisfies the invariant at `k`, the result is `C07.run` of `m − k` exact steps from it and satisfies the
+    invariant at `m`.  `hq`: the QR facts for the accumulated shift loop (for `TridiagQR` at `scOfField F` with `Sc.eps = 0`:
+    `C01DT.shiftLoop_spec`; with `eps > 0` the deflation passes drop entries `|e| ≤ eps(|dᵢ|+|dᵢ₊₁|)` and `H Q = Q H⁺` holds only up
+    to those entries — the explicit error term `Δ` of `c08_tqr_matrix_partial`; not carried through here). -/
+theorem c07_model_restart_run (n m : ℕ) (A : (Fin n → K) →ₗ[K] (Fin n → K)) (op : Arnoldi.Op K) (hop : OpOK n op A)
+    (hsa : ∀ x y, dotProduct x (A y) = dotProduct (A x) y)
+    (s : Arnoldi.State K) (k : ℕ) (vals : List K) (hI : PassInv n m A s m) (hsk : s.k = m) (hk0 : 0 < k) (hkm : k < m)
+    (hq : QRFacts m k s.H (shiftLoopG (HermSolver.restartShifts m k vals) s.H (Lin.Mat.identity m)).1
+      (shiftLoopG (HermSolver.restartShifts m k vals) s.H (Lin.Mat.identity m)).2)
+    (hreg : Regular op ((restartMid op m k vals s).eps * Sc.sqrt (Sc.ofInt ((restartMid op m k vals s).n : Int)))
+      (Sc.sqrt (restartMid op m k vals s).eps) (m - k) k (cleanH (restartMid op m k vals s) k)) :
+    ∃ s3 : Arnoldi.State K, HermSolver.restartFac op m k vals s = ⟨s3, s3.ops - s.ops, none⟩ ∧ s3.k = m ∧
+      s3.near0 = s.near0 ∧ s3.eps = s.eps ∧ PassInv n m A s3 s3.k ∧
+      PassInv n m A (restartMid op m k vals s) k ∧
+      ∃ l : List (Step K (Fin n → K)), l.length = m - k ∧
+        allOk A (absAt n k (cleanH (restartMid op m k vals s) k)) l ∧
+        allExact A (absAt n k (cleanH (restartMid op m k vals s) k)) l ∧
+        allOrthOk (dotIP n) A (absAt n k (cleanH (restartMid op m k vals s) k)) l ∧
+        absAt n s3.k s3 = C07.run A (absAt n k (cleanH (restartMid op m k vals s) k)) l :=
+  restart_run Ex n m A op hop hsa s k vals hI hsk hk0 hkm hq hreg
+
+/-- (5, model level) `c07_model_init`: a regular `Arnoldi.init` (`‖A v0‖ ≠ 0`, `f := 0` shortcut not taken) hands over a state
+    satisfying the invariant at dimension 1 (model-level `c07_init`). -/
+theorem c07_model_init (n m : ℕ) (A : (Fin n → K) →ₗ[K] (Fin n → K)) (op : Arnoldi.Op K) (hop : OpOK n op A)
+    (s s' : Arnoldi.State K) (hn : s.n = n) (hm : s.m = m) (hm1 : 1 ≤ m) (heps : 0 ≤ s.eps) (v0 : Lin.Vec K) (hv0 : v0.size = n)
+    (h : Arnoldi.init op s v0 = some s') (hreg : InitRegular op s v0) :
+    PassInv n m A s' 1 ∧ s'.k = 1 ∧ s'.near0 = s.near0 ∧ s'.eps = s.eps :=
+  init_passInv Ex n m A op hop s s' hn hm hm1 heps v0 hv0 h hreg
+
+end lanczos_model
+
+/-- the loop invariant, the regularity hypothesis and `ExactSc` are satisfiable: the exact instance over any ordered field with the
+    trivial operator on `K⁰`, the freshly constructed state, zero passes -/
+example {K : Type} [Field K] [LinearOrder K] [IsStrictOrderedRing K] (F : FieldFns K) (op : Arnoldi.Op K) :
+    (letI := scOfField F; C07L.Regular op (0 : K) 0 0 1 (Arnoldi.State.mk0 0 2 0 0)) := trivial
 
 end C07
